@@ -237,7 +237,7 @@ package scanner
 //@   props C17
 //@   nosafety
 //@   requires r != nil && r.store != nil && r.compactHistories != nil
-//@   modifies *
+//@   modifies inferred:(*scanner).getTimeoutRevision
 //@   ensures [engines-with-native-ttl-never-expire-by-scan] native_ttl ==> result == 0
 //@   loop 0 step_lemma [remembered-record-was-found-at-least-ttl-old] prev != head(prev) ==> interval >= r.config.TTL
 
